@@ -15,12 +15,26 @@ class Audit:
                 self.entries.append((re.compile(e["root"]), e["class"], re.compile(e["site"]), e))
         self.used = set()
 
+    _NT = re.compile(r"^<(B(?:Uint|Int)(?:D8|D16|D32)?<N>) as num_traits::[\w:]+>::(\w+)$")
+
     def lookup(self, root_fid, cls, site_fid):
+        # a num-traits entry point of the same name shares the audited argument of the inherent method (it forwards to
+        # it - C18's F/G rows; a body that reaches a different site is not covered by the entry)
+        m = self._NT.match(root_fid)
+        alias = "%s::%s" % (m.group(1), m.group(2)) if m else None
         for i, (rr, c, sr, e) in enumerate(self.entries):
-            if c == cls and rr.search(root_fid) and sr.search(site_fid):
+            if c == cls and (rr.search(root_fid) or (alias and rr.search(alias))) and sr.search(site_fid):
                 self.used.add(i)
                 return e
         return None
+
+
+    def entries_for(self, root_fid, cls):
+        """audit entries whose root and class match (site not yet compared)"""
+        m = self._NT.match(root_fid)
+        alias = "%s::%s" % (m.group(1), m.group(2)) if m else None
+        return [(i, sr, e) for i, (rr, c, sr, e) in enumerate(self.entries)
+                if c == cls and (rr.search(root_fid) or (alias and rr.search(alias)))]
 
 
 _default = None
